@@ -187,6 +187,12 @@ class GeckoUdpProtocolHandler(ABC):
     def retry(self, socket) -> bool:
         if self._retry_count == 0:
             return False
+        if socket is not None and self.last_destination is None:
+            # Not transmitted yet, it is still waiting its turn in the send
+            # queue, so there is nothing to resend. Give it another period
+            # rather than using up a retry on a send to nowhere
+            self._reset_timeout()
+            return True
         self._retry_count -= 1
         _LOGGER.debug("Handler retry count %d", self._retry_count)
         self._reset_timeout()
